@@ -15,6 +15,7 @@ import (
 	_ "verifharness/handles"
 	_ "verifharness/ops"
 	_ "verifharness/reads"
+	_ "verifharness/rtrip"
 	_ "verifharness/txn"
 	_ "verifharness/wset"
 )
